@@ -13,10 +13,29 @@ import yaml
 # JSON
 
 
+_JSON_TOK = re.compile(r'"(?:[^"\\]|\\.)*"|-?\d+\.?\d*e[+-]?\d+')
+
+
+def _json_exponents(text, rng):
+    """Other legal spellings of exponent numbers: 1E5, 1e+5 (only number tokens, never inside strings)."""
+    def f(m):
+        t = m.group(0)
+        if t.startswith('"'):
+            return t
+        r = rng.random()
+        if r < 0.5:
+            t = t.replace('e', 'E')
+        return t
+    return _JSON_TOK.sub(f, text)
+
+
 def to_json(v, rng=None, style=None):
     style = style or (rng.choice(['compact', 'spaced', 'pretty']) if rng else 'compact')
     if rng and rng.random() < 0.5:
         v = shuffle_keys(v, rng)
+    if rng and rng.random() < 0.3:
+        base = json.dumps(v, ensure_ascii=rng.random() < 0.3, separators=(',', ':') if style == 'compact' else None, indent=2 if style == 'pretty' else None)
+        return _json_exponents(base, rng)
     if style == 'compact':
         return json.dumps(v, ensure_ascii=False, separators=(',', ':'))
     if style == 'pretty':
@@ -70,15 +89,18 @@ def fmt_float(f):
 
 def yaml_scalar(v, style, rng=None):
     if v is None:
-        return rng.choice(['null', '~']) if rng else 'null'
+        return rng.choice(['null', '~', 'Null', 'NULL']) if rng else 'null'
     if v is True:
-        return 'true'
+        return rng.choice(['true', 'true', 'True', 'TRUE']) if rng and style != 'flow' else 'true'
     if v is False:
-        return 'false'
+        return rng.choice(['false', 'false', 'False', 'FALSE']) if rng and style != 'flow' else 'false'
     if isinstance(v, int):
         return str(v)
     if isinstance(v, float):
-        return fmt_float(v)
+        f = fmt_float(v)
+        if rng and 'e' in f and rng.random() < 0.3:
+            f = f.replace('e', 'E')
+        return f
     return yaml_string(v, style, rng)
 
 
